@@ -23,7 +23,11 @@ TRIGGER = {'both': 'K-C20-a', 'bothsemi': 'K-C20-a', 'loopboth': 'K-C20-a',
            'underscore': 'K-C20-c',
            'selfsyntax': 'K-C20-i', 'selfindent': 'K-C20-i',
            'dir_in_tripstr_skip': 'K-C20-j',
+           'dir_after_remark_skip': 'K-C20-l', 'dir_after_remark_detail': 'K-C20-l',
            'escaped': 'K-C20-d', 'true1': 'K-C20-e', 'ansi': 'K-C20-f', 'prefix': 'K-C20-g', 'cr': 'K-C20-h'}
+
+# kinds that differ only when the user switched the named default off (kind -> (finding, option))
+TRIGGER_WHEN_OFF = {'dir_second_comment': ('K-C20-l', 'ELLIPSIS')}
 
 PLAIN = ['assign', 'expr', 'strexpr', 'print', 'noneexpr', 'multi', 'multiexpr', 'multiprint', 'compound',
          'compound_t', 'loopecho', 'loopecho_t', 'funcdef', 'classdef', 'semi', 'semiecho', 'semi2echo', 'comment', 'trailcomment',
@@ -406,6 +410,15 @@ def example(kind, k):
     elif kind == 'unknown_opt':
         src('print(t(%d))' % K)
         d['directive'] = '+NO_SUCH_OPTION_%d' % K
+    elif kind == 'dir_after_remark_skip':
+        # the directive is not at the start of the comment: the standard module's regex finds it anywhere in the line
+        src('print(t(%d))  # a remark' % K)
+        d['directive'] = '+SKIP'
+        d['want'] = lambda out: 'not this\n'
+    elif kind == 'dir_after_remark_detail':
+        src('raise ValueError("m%%d" %% t(%d))  # why' % K)
+        d['directive'] = '+IGNORE_EXCEPTION_DETAIL'
+        d['want'] = lambda out: '%s\n    ...\nValueError: some other text\n' % TB
     elif kind == 'dir_second_comment':
         src('print("x", t(%d), "yz")  # a remark' % K)
         d['directive'] = '+ELLIPSIS'
@@ -428,6 +441,29 @@ def example(kind, k):
     elif kind in ('oldstyle_blankline', 'oldstyle_blankline_t'):
         src('for i in [t(%d)]:' % K, '    print("a\\n\\nb", i)', '    i')
         d['want'] = lambda out: out.replace('\n\n', '\n<BLANKLINE>\n')
+    elif kind in ('endblank', 'endblank_minus_nw'):
+        src('print("x%%d\\n" %% t(%d))' % K)
+        d['want'] = lambda out: 'x%d\n<BLANKLINE>\n' % K
+        if kind == 'endblank_minus_nw':
+            d['directive'] = '-NORMALIZE_WHITESPACE'
+    elif kind in ('bareprint', 'bareprint_minus_nw'):
+        src('print(""[t(%d):])' % K)
+        d['want'] = lambda out: '<BLANKLINE>\n'
+        if kind == 'bareprint_minus_nw':
+            d['directive'] = '-NORMALIZE_WHITESPACE'
+    elif kind == 'endblank2':
+        src('print("y%%d\\n\\n" %% t(%d))' % K)
+        d['want'] = lambda out: 'y%d\n<BLANKLINE>\n<BLANKLINE>\n' % K
+    elif kind == 'endblank_ws':
+        src('print("z%%d\\n  " %% t(%d))' % K)
+        d['want'] = lambda out: 'z%d\n<BLANKLINE>\n' % K
+    elif kind == 'endblank_loop':
+        src('for i in [t(%d)]:' % K, '    print(i)', '    print()')
+        d['want'] = lambda out: '%d\n<BLANKLINE>\n' % K
+    elif kind == 'endblank_ell':
+        src('print("head", t(%d), "tail\\n")' % K)
+        d['directive'] = '+ELLIPSIS'
+        d['want'] = lambda out: 'head ... tail\n<BLANKLINE>\n'
     elif kind == 'selfsyntax':
         # the example's OWN source does not compile: for the standard module that is the example's exception
         src('t(%d) +' % K)
@@ -550,7 +586,7 @@ def std_run(text):
     return res.failed, res.attempted, list(T), len(test.examples), buf.getvalue()
 
 
-def xdoc_run(text):
+def xdoc_run(text, defaults=None):
     """the same text through xdoctest: dict(collected, passed, failed, T, exc)"""
     from xdoctest import core
     with contextlib.redirect_stdout(io.StringIO()), contextlib.redirect_stderr(io.StringIO()):
@@ -567,6 +603,8 @@ def xdoc_run(text):
             ns, T = make_namespace()
             ex.mode = 'native'
             ex.global_namespace.update(ns)
+            if defaults:
+                ex.config['default_runtime_state'] = dict(defaults)
             try:
                 summ = ex.run(on_error='return', verbose=0)
             except BaseException as e:   # pytest.skip etc.
